@@ -390,6 +390,30 @@ func Generate(rng *rand.Rand, prop, tier string, gomaxprocs int) *Desc {
 		x.SlowEmit = emitters(p) > 0 && rng.Intn(3) == 0
 		if x.SlowEmit && x.CancelMode == CancelExternal && x.AtErr == 0 && rng.Intn(3) == 0 {
 			x.AtEmit, x.Stuck = true, nil
+			// half of the time the outcome that is being reported when the context ends is a
+			// failure, and one whose error wraps the very error the context then ends with
+			// (a task that gave up on a cancellation of its own)
+			if len(x.TaskOut) == 0 && rng.Intn(2) == 0 {
+				var able []int
+				if f := p.Flow; f != nil {
+					for _, t := range f.Tasks {
+						if t.Err && t.Pred == nil && !t.Fallback {
+							able = append(able, t.ID)
+						}
+					}
+				} else {
+					for _, t := range p.Par.Tasks {
+						if t.Err {
+							able = append(able, t.ID)
+						}
+					}
+				}
+				if len(able) > 0 {
+					id := able[rng.Intn(len(able))]
+					x.TaskOut[id] = progen.Err
+					x.PanicKind = ((2-id)%4 + 4) % 4 // fnErr: (PanicKind + id) % 4 == 2 wraps context.Canceled
+				}
+			}
 		}
 		if prop == "C12" {
 			x.ShareErr = emitters(p) > 0 && rng.Intn(3) == 0
